@@ -221,24 +221,32 @@ def le8 (x : Nat) : List Nat :=
    x / 1099511627776 % 256, x / 281474976710656 % 256, x / 72057594037927936 % 256]
 
 /-- the toy hash: 32 bytes.  `mode` 1 forces three quarters of the digests to all-ones bytes (so
-    that rejection sampling is exercised for every field), `mode` 2 all of them -/
+    that rejection sampling is exercised for every field), `mode` 2 all of them, `mode` 3 gives all-zero digests -/
 def hash (mode : Nat) (bytes : List Nat) : List Nat :=
   let s := absorbAll bytes 0 (2611923443488327891, 1376283091369227076, 11820040416388919760, 589684135938649225)
   let (a, b, c, d) := s
   let s := round (round (round (a ^^^ UInt64.ofNat bytes.length, b, c, d)))
   let (a, b, c, d) := s
-  if mode = 2 ∨ (mode = 1 ∧ a.toNat % 4 ≠ 0) then List.replicate 32 255
+  if mode = 3 then List.replicate 32 0
+  else if mode = 2 ∨ (mode = 1 ∧ a.toNat % 4 ≠ 0) then List.replicate 32 255
   else le8 a.toNat ++ le8 b.toNat ++ le8 c.toNat ++ le8 d.toNat
 
 def leBytes : Nat → Nat → List Nat
   | 0, _ => []
   | n + 1, v => (v % 256) :: leBytes n (v / 256)
 
-/-- the toy hasher over a field with `elementBytes`-byte elements -/
+/-- modes 4 and 5 behave like mode 0 except in `mergeWithInt` -/
+def baseMode (mode : Nat) : Nat := if mode ≥ 4 then 0 else mode
+
+/-- the toy hasher over a field with `elementBytes`-byte elements.  Modes 4 / 5: `merge_with_int(seed, v)`
+    is all-ones unless `v` is a multiple of 1000 / 1001 (a candidate is accepted exactly at the 1000th /
+    1001st PRNG call: on and just beyond the retry budget of `draw`) -/
 def ops (mode elementBytes : Nat) : HashOps (List Nat) where
-  hashElements := fun es => hash mode (es.flatMap (leBytes elementBytes))
-  merge := fun a b => hash mode (a ++ b)
-  mergeWithInt := fun s v => hash mode (s ++ le8 v)
+  hashElements := fun es => hash (baseMode mode) (es.flatMap (leBytes elementBytes))
+  merge := fun a b => hash (baseMode mode) (a ++ b)
+  mergeWithInt := fun s v =>
+    if (mode = 4 ∧ v % 1000 ≠ 0) ∨ (mode = 5 ∧ v % 1001 ≠ 0) then List.replicate 32 255
+    else hash (baseMode mode) (s ++ le8 v)
   asBytes := fun d => d
 
 end Toy
